@@ -16,7 +16,8 @@ pub const FLOORS: &[&str] = &[
     "stmt:blkw_inner_word", "stmt:fill", "addr:below_origin", "addr:beyond_image", "label:goto",
     "label:goto_offset", "label:print", "label_colon", "label_own_line", "multibyte_in_source",
     "origin:default", "origin:other", "origin:ge8000", "image_straddles_8000", "break_or_orig_interleaved",
-    "assembly_after_memory_was_modified", "label_like_register_with_digits",
+    "assembly_after_memory_was_modified", "label_like_register_with_digits", "break_table_row", "break_table_row_truncated",
+    "break_table_row_multibyte", "break_table_row_without_statement",
 ];
 
 pub fn run(cfg: &Cfg, col: &mut Collector) {
@@ -265,6 +266,121 @@ fn one_case(seed: u64, i: u64) -> CaseOut {
         }
     }
     let _ = prev_item;
+    // ---- the breakpoint table. Only the decorated output mode has one (the minimal mode lists
+    // addresses): a second session with breakpoints on a sample of addresses, then `break list`.
+    if !cfg!(miri) {
+        let mut addrs: Vec<u16> = Vec::new();
+        for _ in 0..(3 + rng.below(8)) {
+            addrs.push(orig.wrapping_add(rng.below(n as u64 + 2) as u16));
+        }
+        // every word of one multi-word directive, when there is one
+        if let Some(k) = (1..n as usize).find(|k| img.item_of_word[*k] == img.item_of_word[*k - 1]) {
+            addrs.push(orig + k as u16);
+            addrs.push(orig + k as u16 - 1);
+        }
+        addrs.retain(|a| *a >= orig && *a < 0xFE00);
+        let mut bl: Vec<String> = addrs.iter().map(|a| format!("break add x{:04x}", a)).collect();
+        let n_adds = bl.len();
+        bl.push("break list".into());
+        bl.push("exit".into());
+        // (a fresh thread: lace's feature flags can be initialised once per thread)
+        let script2 = bl.join("\n");
+        let s2 = std::thread::scope(|sc| {
+            std::thread::Builder::new()
+                .stack_size(8 << 20)
+                .spawn_scoped(sc, || {
+                    crate::exec::case_minimal(false);
+                    run_session(text, stack, &script2, &[], 10_000, false)
+                })
+                .expect("spawn")
+                .join()
+        });
+        let Ok(s2) = s2 else {
+            out.inconclusive = Some("breakpoint table session: harness thread panicked".into());
+            return out;
+        };
+        let bdetail = |note: String| {
+            J::obj(vec![
+                ("source", J::s(text)),
+                ("script", J::A(bl.iter().map(J::s).collect())),
+                ("origin", J::s(format!("x{:04X}", orig))),
+                ("stack_feature", J::B(stack)),
+                ("note", J::s(note)),
+            ])
+        };
+        if let Ok(s2) = s2 {
+            if let Err(a) = &s2.obs.end {
+                let key = match a {
+                    Abort::Panic { .. } => format!("C17/panic/{}", a.panic_file()),
+                    o => format!("C17/session-ended/{}", o.short()),
+                };
+                out.violate(key, i, format!("breakpoint table session: {}", a.short()), bdetail(String::new()));
+                return out;
+            }
+            let (Some(b), Some(a)) = (
+                s2.snaps.iter().find(|s| s.commands_read == n_adds),
+                s2.snaps.iter().find(|s| s.commands_read == n_adds + 1),
+            ) else {
+                out.violate("C17/no-prompt", i, "no prompt after `break list`", bdetail(String::new()));
+                return out;
+            };
+            let table = strip_ansi(&s2.obs.out_debugger[b.dbg_len..a.dbg_len]);
+            let rows = parse_table(&table);
+            let mut expected: Vec<u16> = a.bps.iter().map(|x| x.0).collect();
+            expected.sort();
+            expected.dedup();
+            for addr in &expected {
+                let Some((_, label_cell, text_cell, label_cap, text_cap)) = rows.iter().find(|r| r.0 == *addr) else {
+                    out.violate(
+                        "C17/break-table-row-missing",
+                        i,
+                        format!("breakpoint x{:04X} is set but the table has no row for it", addr),
+                        bdetail(table.clone()),
+                    );
+                    return out;
+                };
+                let k = *addr as i32 - orig as i32;
+                let want_text: String = if k >= 0 && k < n {
+                    let item = img.item_of_word[k as usize];
+                    let (s, l) = rendered.stmt_spans[item].expect("statement span");
+                    text[s..s + l].to_string()
+                } else {
+                    String::new()
+                };
+                if !cell_shows(text_cell, &want_text, *text_cap) {
+                    out.violate(
+                        "C17/break-table-text",
+                        i,
+                        format!("breakpoint table shows {:?} for x{:04X}, the statement text is {:?} (cell capacity {})", text_cell, addr, want_text, text_cap),
+                        bdetail(table.clone()),
+                    );
+                    return out;
+                }
+                let names: Vec<&String> = img.labels.iter().filter(|(_, idx)| *idx as i32 == k).map(|(nm, _)| nm).collect();
+                let label_ok = if names.is_empty() { label_cell.is_empty() } else { names.iter().any(|nm| cell_shows(label_cell, nm, *label_cap)) };
+                if !label_ok {
+                    out.violate(
+                        "C17/break-table-label",
+                        i,
+                        format!("breakpoint table shows label {:?} for x{:04X}, the labels of that statement are {:?}", label_cell, addr, names),
+                        bdetail(table.clone()),
+                    );
+                    return out;
+                }
+                out.evals += 1;
+                out.class("break_table_row");
+                if want_text.chars().count() >= *text_cap {
+                    out.class("break_table_row_truncated");
+                }
+                if !want_text.is_ascii() {
+                    out.class("break_table_row_multibyte");
+                }
+                if want_text.is_empty() {
+                    out.class("break_table_row_without_statement");
+                }
+            }
+        }
+    }
     // layout classes
     if text.contains(":\n") || text.contains(":\r") || text.contains(": ") {
         out.class("label_colon");
@@ -297,4 +413,64 @@ fn one_case(seed: u64, i: u64) -> CaseOut {
         ]));
     }
     out
+}
+
+
+fn strip_ansi(s: &str) -> String {
+    let mut out = String::new();
+    let mut it = s.chars().peekable();
+    while let Some(c) = it.next() {
+        if c == '\u{1b}' && it.peek() == Some(&'[') {
+            it.next();
+            for d in it.by_ref() {
+                if d.is_ascii_alphabetic() {
+                    break;
+                }
+            }
+        } else {
+            out.push(c);
+        }
+    }
+    out
+}
+
+/// Rows of the decorated breakpoint table: (address, label cell, text cell, label capacity, text capacity).
+/// Capacities come from the table's own top border (columns between the corners, minus the padding).
+fn parse_table(t: &str) -> Vec<(u16, String, String, usize, usize)> {
+    let mut caps = (13usize, 27usize);
+    let mut rows = Vec::new();
+    for line in t.lines() {
+        if let Some(rest) = line.strip_prefix('\u{250c}') {
+            let segs: Vec<usize> = rest.trim_end_matches('\u{2510}').split('\u{252c}').map(|s| s.chars().count()).collect();
+            if segs.len() == 3 {
+                caps = (segs[1].saturating_sub(1), segs[2].saturating_sub(1));
+            }
+        }
+        if let Some(rest) = line.strip_prefix("\u{2502} 0x") {
+            let cells: Vec<&str> = rest.split('\u{2502}').collect();
+            if cells.len() >= 3 {
+                if let Ok(addr) = u16::from_str_radix(cells[0].trim(), 16) {
+                    let cell = |c: &str| c.strip_prefix(' ').unwrap_or(c).trim_end_matches(' ').to_string();
+                    rows.push((addr, cell(cells[1]), cell(cells[2]), caps.0, caps.1));
+                }
+            }
+        }
+    }
+    rows
+}
+
+/// The cell shows `want` exactly; only a text that does not fit in fewer columns than the cell has
+/// may be cut, and then the cell is a prefix of it followed by an ellipsis.
+fn cell_shows(cell: &str, want: &str, cap: usize) -> bool {
+    let want_trim = want.trim_end_matches(' ');
+    if cell == want_trim {
+        return true;
+    }
+    if want.chars().count() < cap {
+        return false;
+    }
+    match cell.strip_suffix('\u{2026}') {
+        Some(prefix) => want.starts_with(prefix) && prefix.chars().count() + 1 <= cap && prefix.chars().count() + 3 >= cap,
+        None => false,
+    }
 }
